@@ -68,8 +68,10 @@ impl Stack {
         }
 
         self.0.truncate(1);
+        self.0[0].exprs_to_eval.clear();
         self.0[0].evalled_values.truncate(1);
         self.0[0].bindings.block_bindings.truncate(1);
+        self.0[0].bindings_next_block.clear();
     }
 
     pub(crate) fn type_bindings(&self) -> TypeVarEnv {
